@@ -55,7 +55,7 @@ def r_driver(root):
         def delayed(name, pos): return ("obj", "attr", HS({".kind": "crossref", ".obj_name": name, ".position": pos, ".cls": {".__name__": "Target"}}))
         def resolver(tag, script, parser_, lst, model_=None):
             # an instance of the real ReferenceResolver class (constructor interpreted) whose resolve_one_step is scripted
-            try: r = pyeval.instantiate("ReferenceResolver", [parser_, model_, lst], {}, {"__classdefs__": cds, "__functions__": fns, "__module__": t})
+            try: r = pyeval.instantiate("ReferenceResolver", [parser_, model_, lst], {}, {"__classdefs__": cds, "__functions__": fns, "__module__": t, "DefaultScopeProvider": pyeval.PyFn(lambda *a, **k: HS({".kind": "provider", ".is_loader": False, ".tag": "default"}))})
             except (pyeval.Raised, pyeval.Unsupported) as x_: raise AnalysisError("ReferenceResolver(parser, model, list): %s" % x_)
             if r.get(".pos_crossref_list") is not lst: r[".pos_crossref_list_given"] = lst
             r[".tag"] = tag; r.setdefault(".delayed_crossrefs", []); state = {"i": 0}
